@@ -55,6 +55,15 @@ CLAIMED = {
  "C15": ("M+R: TLC model check of comp/FileSplit, CsvSplit, RangeSplit (+ Apalache for 64-bit limits in thorough); every enumerated file/range run through the real sources; SourceProps judged by TLC (SourceCheck.tla)",
          "every file over {x, LF, CRLF} up to a length bound for 1..6 replicas and every small range for 1..6 peers of all ten integer types (plus near-limit tables) is run on the real FileSource/CsvSource/IntoParallelSource; TLC evaluates exactly-once/partition predicates on the real per-replica output; the finite spaces are enumerated completely",
          "TLC integers are 32 bit: near-limit values reach TLC through an order-preserving map; CSV quoted newlines are outside the property", "4-C15"),
+ "C12": ("M+R: TLC model check of comp/CountWindow.tla; every (N, S, length, mode) case run on the real CountWindow manager and WindowOperator; WindowProps judged by TLC (WindowCheck.tla)",
+         "the slot algorithm is model checked for all 1<=S<=N, lengths and modes of the tier; the same finite space is enumerated completely on the real manager through the public WindowDescription::build / WindowManager::process with a collecting accumulator (group content, position, end flush, keys), plus keyed interleavings through a real single-block job",
+         "results are judged from (input, per-step outputs) only; library aggregators first/last/min/max/count covered, sum through the job-level D check", "4-C12"),
+ "C13": ("M+R: TLC model check of comp/EventTimeWindow.tla and TransactionWindow.tla; TLC-generated arrival orders / watermark placements replayed on the real managers; WindowProps judged by TLC",
+         "every arrival order allowed by the watermarks for small sizes/slides/timestamps: span, tumbling exactly-once, sliding cover, fired_early / fired_late against the watermarks, transaction commit/discard; open finding F3 carved out narrowly with a finding config that must still fail",
+         "managers driven directly and through WindowOperator in a single-block job", "4-C13"),
+ "C14": ("M+R: TLC model check of comp/ProcTimeWindow.tla and SessionWindow.tla over integer tick patterns; the patterns replayed tick for tick on the real managers under the mock clock; WindowProps judged by TLC",
+         "conservation (each element in exactly one result, order kept, no empty result), sliding cover, flush at the end of the iteration, for every timing pattern of the tier",
+         "wall-clock windows are judged under the mock clock only (verif::set_mock_clock); the Instant::now() path itself is exercised by the repository's own test", "4-C14"),
 }
 
 def main():
